@@ -303,6 +303,7 @@ func (e *Engine) Load() error {
 			all = append(all, con.Modifies...)
 			all = append(all, con.Cuts...)
 			all = append(all, con.Running...)
+			all = append(all, con.AtCalls...)
 			if con.Coupling != nil {
 				all = append(all, con.Coupling)
 			}
